@@ -21,6 +21,27 @@ type vTree struct {
 
 var vTrees = map[*btree.BTreeG[*segment]]*vTree{}
 
+// vModelOf returns the sorted-set view of a segment tree: symbolically the
+// model object, natively (replay, where the real B-tree runs) a snapshot of the
+// real tree's contents in ascending order.
+func vModelOf(t *segmentTree) *vTree {
+	if !vNative() {
+		return vTrees[t.tr]
+	}
+	if m, ok := vTrees[t.tr]; ok && m != nil {
+		return m
+	}
+	m := &vTree{}
+	t.tr.Ascend(func(it *segment) bool {
+		if m.n < vTreeK {
+			m.items[m.n] = it
+		}
+		m.n++
+		return true
+	})
+	return m
+}
+
 func vSeq(s *segment) uint32 {
 	q, _ := s.Seq()
 	return q
